@@ -56,8 +56,10 @@ def run(ctx, R):
         R.floor('v2 reads on accepting paths', n_read, 100)
     C06.auto_table(ctx, R, 'C04.H', only=['v2 accepts', 'v2 terminal'])
     try:
-        from rules import v1model
+        from rules import v1model, C16 as C16mod
         v1model.c04_w(ctx, R)
+        # the FromStr entry points return exactly what try_from(&str) accepted (header text included)
+        C16mod.fromstr_delegation(ctx, R, 'C04.F')
     except ImportError:
         R.assumptions.append('C04.W (v1 window) not decided by this build')
 
